@@ -26,7 +26,8 @@ fn zero_seg(address: usize) -> Result<u8, RuntimeError> {
     if address == INDICATOR_KEYS_ADDRESS {
         unsafe { get_indicator_keys() }
     } else {
-        unimplemented!()
+        // the rest of the low memory area is not emulated
+        Err(RuntimeError::IllegalFunctionCall)
     }
 }
 
